@@ -39,7 +39,7 @@ type spec struct {
 	BigCatalog bool `json:",omitempty"`
 }
 
-var writeKinds = []string{"insert", "insert", "update", "delete", "bulk", "bulk-big", "create-table", "drop-table", "create-index", "drop-index", "alter", "vacuum", "incr-vacuum", "delete-all", "update-grow", "vacuum-pagesize", "open-mid-transaction", "open-mid-transaction"}
+var writeKinds = []string{"insert", "insert", "update", "delete", "bulk", "bulk-big", "create-table", "drop-table", "create-index", "drop-index", "alter", "vacuum", "incr-vacuum", "delete-all", "update-grow", "vacuum-pagesize", "open-mid-transaction", "open-mid-transaction", "refused-read", "refused-read"}
 var readKinds = []string{"select", "select", "indexed", "rowid", "columns", "low-scan", "low-tables", "low-schema", "low-all", "repeat", "pk", "prepared", "select-in-lo-txn", "indexed-in-lo-txn", "low-all-in-hi-txn", "select-while-writer-open", "rowid-while-writer-open"}
 
 func TestC08History(t *testing.T) {
@@ -358,6 +358,47 @@ func run(r *vt.Run, t vt.TB, s spec) {
 				history = append(history, fmt.Sprintf("vacuum-pagesize:%d", nps))
 				note("vacuum")
 				note("pagesize")
+			}
+		case "refused-read":
+			// every long-lived handle is refused once (another connection
+			// holds EXCLUSIVE at that moment); what is committed afterwards
+			// has to show up in their later reads all the same
+			if !w2open {
+				if err := env.O.Open("w2", path); err != nil {
+					r.Harness(t, "open w2: %v", err)
+				}
+				w2open = true
+				if _, err := env.O.Query("w2", "PRAGMA synchronous=OFF"); err != nil {
+					r.Harness(t, "w2 synchronous: %v", err)
+				}
+			}
+			if err := env.O.Exec("w2", "BEGIN EXCLUSIVE"); err != nil {
+				r.Harness(t, "begin exclusive: %v", err)
+			}
+			refused := 0
+			if err := hi.Select("t0", func(sqlittle.Row) {}, "a"); err != nil {
+				refused++
+			}
+			if err := lo.RLock(); err != nil {
+				refused++
+			} else {
+				lo.RUnlock()
+			}
+			if rows, err := sqldb.Query("SELECT * FROM t0"); err != nil {
+				refused++
+			} else {
+				for rows.Next() {
+				}
+				if rows.Err() != nil {
+					refused++
+				}
+				rows.Close()
+			}
+			if err := env.O.Exec("w2", "ROLLBACK"); err != nil {
+				r.Harness(t, "rollback w2: %v", err)
+			}
+			if refused > 0 {
+				classes["reads-refused-in-between"] = true
 			}
 		case "open-mid-transaction":
 			// A handle is opened while another connection is in the middle of
